@@ -508,6 +508,13 @@ where
         vertices.into_iter().map(|v| (v.uuid(), v)).collect()
     }
 
+    /// Verification hook (`--cfg delaunay_verif` only): overwrite the coordinates without any
+    /// validation (fault injection: non-finite or coincident coordinates).
+    #[cfg(delaunay_verif)]
+    pub fn verif_set_point(&mut self, point: Point<T, D>) {
+        self.point = point;
+    }
+
     /// Sets the vertex UUID with validation.
     ///
     /// This is a test-only utility for creating vertices with specific UUIDs
